@@ -441,6 +441,10 @@ def gen_spec(rng, cls, n):
         return (cls, (("choices", ch), ("location", loc))), role, seq
     if cls in ("AvoidRareCodons", "MaximizeCAI", "HarmonizeRCA"):
         loc = rng.choice([None, rloc(rng, n, strands=(1, -1), mult=3, minlen=3)])
+        if loc is not None and rng.random() < 0.3:
+            # a single codon (the size of the local problems of codon-wise objectives), either strand
+            a = rng.randint(0, n - 3)
+            loc = (a, a + 3, rng.choice([1, -1, -1]))
         if loc is None:
             seq = seq[:n // 3 * 3]
         kw = {"location": loc}
